@@ -120,6 +120,10 @@ inductive Op where
   | pol (rules : Policy)
   | nh (a : Addr) (reachable : Bool)
   | undefer (f : Nat)    -- end_deferral_families([f])
+  | insl (src : Nat) (p : Pfx) (pid : Nat) (nh : Addr) (att : Attrs)
+                         -- insert_route with the per-peer prefix limit reached (max 0)
+  | gdown (k : Nat) (m : Nat)  -- unregister_peer: family f staled when bit f of m is set, dropped otherwise
+  | purgef (k : Nat) (f : Nat) -- drop_stale_families([f])  (End-of-RIB of one family)
   deriving DecidableEq, Repr
 
 structure Vrf where
@@ -519,20 +523,40 @@ def undeferDest (cfg : Cfg) (f : Nat) (p : Pfx) (paths : List Path) : List Path 
 
 def setCur (cur : List Nat) (k v : Nat) : List Nat := cur.set k v
 
+def famBit (m f : Nat) : Bool := (m / 2 ^ f) % 2 == 1
+
+/-- `TableManager::unregister_peer` on one destination: its family is either dropped or staled -/
+def gdownDest (cfg : Cfg) (deferring : List Nat) (k m : Nat) (p : Pfx) (paths : List Path) : List Path × List Req :=
+  if famBit m p.fam then restaleDest cfg deferring k p paths else dropDest cfg deferring (fromAddr k) p paths
+
+/-- `drop_stale_families` of a single family on one destination -/
+def purgefDest (cfg : Cfg) (deferring : List Nat) (k f : Nat) (p : Pfx) (paths : List Path) : List Path × List Req :=
+  if p.fam == f then dropDest cfg deferring (fun e => fromAddr k e && e.stale) p paths else (paths, [])
+
+/-- `Table::insert` with the prefix limit reached refuses a prefix that is new for the SESSION (nothing
+    is stored, nothing registered): the counter belongs to one `Source`, a path held stale from an
+    earlier session of the peer does not count; another path for a prefix this session already
+    announced is accepted -/
+def limitAdmits (paths : List Path) (sid : Nat) : Bool := paths.any (fun a => a.sid == sid)
+
 def Attrs.wf (a : Attrs) : Bool :=
-  a.lp ≤ 1000 && a.cl ≤ 1 && a.rts.all (· ≤ 1000) && a.asl ≤ 3 && a.org ≤ 2
+  a.lp < 4294967296 && a.cl ≤ 3 && a.rts.all (· ≤ 1000) && a.asl ≤ 3 && a.org ≤ 2
 
 /-- An op is well formed when the harness can execute it (otherwise both sides answer `(bad-case)`). -/
 def Op.wf (cfg : Cfg) : Op → Bool
   | .ins src p pid nx att =>
-      validSrc cfg src && p.fam ≤ 3 && p.id ≤ 250 && pid ≤ 1000 && nx < 200 && att.wf && (!att.ll || 100 ≤ nx)
-  | .rm src p pid => validSrc cfg src && p.fam ≤ 3 && p.id ≤ 250 && pid ≤ 1000
+      validSrc cfg src && p.fam ≤ 3 && p.id ≤ 250 && pid < 4294967296 && nx < 200 && att.wf && (!att.ll || 100 ≤ nx)
+  | .rm src p pid => validSrc cfg src && p.fam ≤ 3 && p.id ≤ 250 && pid < 4294967296
   | .down k | .drop k | .stale k | .purge k | .llgr k | .lpurge k | .soft k => k < cfg.peers.length
   | .pol rules => rules.all (fun r =>
       (match r.cond with | .any => true | .peer k => k < 8 | .nh a => a < 200) &&
       (match r.act with | .set a => a < 200 | _ => true))
   | .nh a _ => a < 200
   | .undefer f => f ≤ 3
+  | .insl src p pid nx att =>
+      src < cfg.peers.length && p.fam ≤ 3 && p.id ≤ 250 && pid < 4294967296 && nx < 200 && att.wf && (!att.ll || 100 ≤ nx)
+  | .gdown k m => k < cfg.peers.length && m < 16
+  | .purgef k f => k < cfg.peers.length && f ≤ 3
 
 /-- distinct VRFs use distinct kernel tables (table id 0 = no table) -/
 def vrfsDistinct : List Vrf → Bool
@@ -583,6 +607,14 @@ def step (cfg : Cfg) (st : St) : Op → St × List Req
   | .undefer f =>
       let r := trav (undeferDest cfg f) st.dests
       ({ st with dests := r.1, deferring := st.deferring.filter (· != f) }, r.2)
+  | .insl src p pid nh att =>
+      if limitAdmits (lookupDest st.dests p) (sidOf st src) then insertRoute cfg st src p pid nh att else (st, [])
+  | .gdown k m =>
+      let r := trav (gdownDest cfg st.deferring k m) st.dests
+      ({ st with dests := r.1, cur := setCur st.cur k st.next, next := st.next + 1 }, r.2)
+  | .purgef k f =>
+      let r := trav (purgefDest cfg st.deferring k f) st.dests
+      ({ st with dests := r.1 }, r.2)
 
 /-- The run: after every op, the requests it caused and the table contents. -/
 def runFrom (cfg : Cfg) : St → List Op → List (List Req × List Dest)
